@@ -117,13 +117,25 @@ def execute(case):
     }
 
 
+def execute_replaced(case):
+    """leader replaced in place (same size, optionally same modification time) between two opens in one process"""
+    a = treecheck.spec_from_case({"spec": SPEC, "devs": []})
+    b = treecheck.spec_from_case({"spec": SPEC, "devs": case["devs"]})
+    out = treecheck.check_replaced(a, b, kind=case["fs"], keep_mtime=case["keep_mtime"], only=["/metadata"], ignore=TIME_LEAVES)
+    fails = out["failures"]
+    for f in fails:
+        f["detail"] = f"leader replaced in place on {case['fs']} (modification time {'kept' if case['keep_mtime'] else 'new'}), second open: {f['detail']}"
+        f["case"] = {**case, "fn": "execute_replaced"}
+    return {"ok": not fails, "failures": fails[:3], "outcome": "replaced-ok" if not fails else "replaced-stale", "nontrivial": True, "n_leaves": out["n_leaves"], "unverified": []}
+
+
 def run(res, tier, seed):
     res.rule = (
         "baseline + every single (field, value) deviation over the value fields of the exposed leader records (floats: 28 text"
         " formats incl. E/F notation, signs, justification, extremes; ints; texts; every enum code; complex pairs)"
         " [quick: 3 alphabet entries per field, rotated] + 30 all-fields-at-once products (every field x every alphabet entry) + structural variants"
         " (attitude points 1,2,3,136 x channels 1,2,16; map projection absent/UTM/UPS/LCC/MER x levels)."
-        " Non-trivial = the deviation changes at least one byte of the leader file; every case compares all /metadata leaves."
+        " The leader replaced in place by one of equal size (modification time kept / new) between two opens in one process, on 3 filesystems." " Non-trivial = the deviation changes at least one byte of the leader file; every case compares all /metadata leaves."
     )
     res.assumptions = ["layout tables and leaf rules are the reviewed frozen model of the format (DESIGN §3 E1/E2)", "counts, designator and date-time texts are handled by C05/C17, blanks by C20"]
     unv = set()
@@ -135,5 +147,9 @@ def run(res, tier, seed):
         res.record(small, {**out, "failures": [{**f, "case": case if len(case["devs"]) <= 3 else {**case}} for f in out["failures"]]}, order=idx)
         unv.update(out["unverified"])
         leaves = max(leaves, out["n_leaves"])
+    allat = next(c for c in plan(tier, seed) if c["label"] == "all-at-once#3")
+    rep = [{"fs": fs, "keep_mtime": km, "devs": allat["devs"]} for fs in ("local", "mcfs", "file") for km in (True, False)]
+    for idx, case, out in core.pool_map(__name__, "execute_replaced", rep, chunksize=1):
+        res.record({"fn": "execute_replaced", "fs": case["fs"], "keep_mtime": case["keep_mtime"]}, out, order=10**6 + idx)
     res.extra["leaves_compared_per_tree"] = leaves
     res.extra["unverified_leaves"] = sorted(unv)[:50]
